@@ -8,8 +8,9 @@
     The lookup service is a function from the asked prefixes to TXT strings
     (or a failure).  Time is [Z] nanoseconds; stored expiries are whole
     seconds as in [fromCacheItem].  The golibs LRU cache is an association
-    list; eviction is an explicit operation of the history (it may remove any
-    entries between two checks). *)
+    list; which entries it evicts is not computed but given: every [Set] of a
+    check comes with the entries it evicted (and whether it stored the item),
+    and a history may also remove any entries between two checks. *)
 From Coq Require Import ZArith NArith List Bool.
 From AGH Require Import Base.Run.
 Import ListNotations.
@@ -142,24 +143,62 @@ Fixpoint dedup (l : list bytes) : list bytes :=
   | x :: r => x :: filter (fun y => negb (eqb_bytes y x)) (dedup r)
   end.
 
-(** [storeInCache]; [exp] is the expiry [setCache] computes.  First the
-    received hashes grouped by prefix, then an empty entry for every requested
-    prefix that has none. *)
-Definition store_positive (exp : Z) (resp : list hash) (c : cache) : cache :=
-  fold_left (fun c p =>
-      cset p {| c_expiry := exp;
-                c_hashes := filter (fun h => eqb_bytes (prefix_of h) p) resp |} c)
-    (dedup (map prefix_of resp)) c.
+(** One [cache.Set] of the golibs LRU cache, as the harness observes it: the
+    entries the cache evicted to make room (any entries: the model does not
+    follow the LRU order) and whether the new item was stored at all (an item
+    larger than the cache is dropped). *)
+Definition set_ev := (list prefix * bool)%type.
 
-Definition store_negative (exp : Z) (to_req : list hash) (c : cache) : cache :=
-  fold_left (fun c h =>
-      match cget (prefix_of h) c with
-      | None => cset (prefix_of h) {| c_expiry := exp; c_hashes := [] |} c
-      | Some _ => c
-      end) to_req c.
+Definition cset_o (e : set_ev) (p : prefix) (it : citem) (c : cache) : cache :=
+  let c1 := fold_left (fun c q => cdel q c) (fst e) c in
+  if snd e then cset p it c1 else c1.
 
-Definition store_in_cache (exp : Z) (to_req resp : list hash) (c : cache) : cache :=
-  store_negative exp to_req (store_positive exp resp c).
+(** The next [Set] of a check takes the next event; none left = nothing
+    evicted, item stored. *)
+Definition pop (evs : list set_ev) : set_ev * list set_ev :=
+  match evs with
+  | [] => (([], true), [])
+  | e :: r => (e, r)
+  end.
+
+(** [storeInCache], first loop over the Go map [hashToStore]: [ps] is the
+    order in which the map was ranged over. *)
+Fixpoint store_pos (exp : Z) (resp : list hash) (ps : list prefix) (evs : list set_ev)
+    (c : cache) : cache * list set_ev :=
+  match ps with
+  | [] => (c, evs)
+  | p :: r =>
+      let '(e, evs') := pop evs in
+      store_pos exp resp r evs'
+        (cset_o e p {| c_expiry := exp;
+                       c_hashes := filter (fun h => eqb_bytes (prefix_of h) p) resp |} c)
+  end.
+
+(** Second loop: an empty entry for every requested prefix that has neither
+    an entry in the cache nor hashes in the answer ([keys] = the map's keys). *)
+Fixpoint store_neg (exp : Z) (keys : list prefix) (to_req : list hash) (evs : list set_ev)
+    (c : cache) : cache * list set_ev :=
+  match to_req with
+  | [] => (c, evs)
+  | h :: r =>
+      let p := prefix_of h in
+      match cget p c with
+      | None =>
+          if mem_hash p keys then store_neg exp keys r evs c
+          else let '(e, evs') := pop evs in
+               store_neg exp keys r evs' (cset_o e p {| c_expiry := exp; c_hashes := [] |} c)
+      | Some _ => store_neg exp keys r evs c
+      end
+  end.
+
+(** [storeInCache]; [exp] is the expiry [setCache] computes, [order] the
+    iteration order of the map (entries that are not keys are ignored), [evs]
+    what each [Set] did.  Returns the events not consumed as well. *)
+Definition store_in_cache (exp : Z) (to_req resp : list hash) (order : list prefix)
+    (evs : list set_ev) (c : cache) : cache * list set_ev :=
+  let keys := dedup (map prefix_of resp) in
+  let '(c1, evs1) := store_pos exp resp (filter (fun p => mem_hash p keys) order) evs c in
+  store_neg exp keys to_req evs1 c1.
 
 (** [getQuestion] *)
 Definition question (suffix : bytes) (hs : list hash) : bytes :=
@@ -169,11 +208,13 @@ Record check_out := {
   o_blocked : bool;
   o_err : bool;
   o_question : option bytes;     (* the question sent upstream, if any *)
+  o_sets_left : nat;             (* given [Set] events the check did not consume *)
 }.
 
 (** One step of a history sharing a cache. *)
 Inductive op :=
   | OCheck (host : bytes) (svc : list prefix -> option (list bytes))
+           (order : list prefix) (evs : list set_ev)   (* map order and cache evictions of this check *)
   | OAdvance (d : Z)                (* nanoseconds *)
   | OEvict (ps : list prefix).
 
@@ -191,28 +232,34 @@ Section HashPrefix.
   Definition hostname_to_hashes (host : bytes) : list hash := map sha (names_to_hash host).
 
   (** [Checker.Check] at instant [now]. *)
-  Definition check (svc : list prefix -> option (list bytes)) (now : Z) (host : bytes)
-      (c : cache) : cache * check_out :=
+  Definition check (svc : list prefix -> option (list bytes)) (order : list prefix)
+      (evs : list set_ev) (now : Z) (host : bytes) (c : cache) : cache * check_out :=
     let hashes := hostname_to_hashes host in
     match find_in_cache now c hashes with
-    | FoundBlocked => (c, {| o_blocked := true; o_err := false; o_question := None |})
-    | FoundClean => (c, {| o_blocked := false; o_err := false; o_question := None |})
+    | FoundBlocked => (c, {| o_blocked := true; o_err := false; o_question := None;
+                             o_sets_left := length evs |})
+    | FoundClean => (c, {| o_blocked := false; o_err := false; o_question := None;
+                           o_sets_left := length evs |})
     | ToRequest hs =>
         let q := question suffix hs in
         match svc (map prefix_of hs) with
-        | None => (c, {| o_blocked := false; o_err := true; o_question := Some q |})
+        | None => (c, {| o_blocked := false; o_err := true; o_question := Some q;
+                         o_sets_left := length evs |})
         | Some strs =>
             let received := parse_txt strs in
             let matched := find_match hs received in
-            (store_in_cache ((now + cache_time) / ns_sec)%Z hs received c,
-             {| o_blocked := matched; o_err := false; o_question := Some q |})
+            let '(c', rest) :=
+              store_in_cache ((now + cache_time) / ns_sec)%Z hs received order evs c in
+            (c', {| o_blocked := matched; o_err := false; o_question := Some q;
+                    o_sets_left := length rest |})
         end
     end.
 
   Definition step (o : op) (st : Z * cache) : (Z * cache) * option check_out :=
     let '(now, c) := st in
     match o with
-    | OCheck host svc => let '(c', out) := check svc now host c in ((now, c'), Some out)
+    | OCheck host svc order evs =>
+        let '(c', out) := check svc order evs now host c in ((now, c'), Some out)
     | OAdvance d => ((now + d)%Z, c, None)
     | OEvict ps => ((now, fold_left (fun c p => cdel p c) ps c), None)
     end.
